@@ -2,7 +2,7 @@
    in the Go memory model is observed with the race detector, not proved). *)
 From Coq Require Import List Arith.
 From BMC Require Import Interleave.
-From BMCProps Require Import Tie.
+From BMCProps Require Import TieFootprint.
 
 (* under every interleaving of any number of connections, each connection's final state and outputs
    (datagrams, results) are those of its solo run *)
